@@ -4,3 +4,4 @@ use super::*;
 
 pub(crate) mod common;
 mod c09;
+mod c14;
